@@ -67,17 +67,17 @@ package spynode
 //@   given forall(k, 0, len(tx.TxOut), tx.TxOut[k] != nil) && forall(k, 0, len(tx.TxIn), tx.TxIn[k] != nil)
 //@   assumes value: result == Relevant(tx)
 //@   loop 2 invariant 0 <= _i && _i <= len(tx.TxOut) && fbase(node, tx) && outsClear(node, tx, _i)
-//@   loop 0 invariant r != nil && 0 <= rpos(r) && rpos(r) <= ntok(r) && mirrors(r, lockblob(output)) && noHit(node, lockblob(output), rpos(r)) && fbase(node, tx)
+//@   loop 0 invariant r != nil && intact(r) && 0 <= rpos(r) && rpos(r) <= ntok(r) && mirrors(r, lockblob(output)) && noHit(node, lockblob(output), rpos(r)) && fbase(node, tx)
 //@   loop 0 invariant 0 <= _i2 && _i2 < len(tx.TxOut) && output == tx.TxOut[_i2] && outsClear(node, tx, _i2)
 //@   loop 3 invariant 0 <= _i && _i <= len(node.pushDataHashes) && forall(k, 0, _i, node.pushDataHashes[k] != hash) && fbase(node, tx)
-//@   loop 3 invariant r != nil && 1 <= rpos(r) && rpos(r) <= ntok(r) && mirrors(r, lockblob(output)) && sinceloop(rpos(r) == old(rpos(r))) && noHit(node, lockblob(output), rpos(r) - 1)
+//@   loop 3 invariant r != nil && intact(r) && 1 <= rpos(r) && rpos(r) <= ntok(r) && mirrors(r, lockblob(output)) && sinceloop(rpos(r) == old(rpos(r))) && noHit(node, lockblob(output), rpos(r) - 1)
 //@   loop 3 invariant 0 <= _i2 && _i2 < len(tx.TxOut) && output == tx.TxOut[_i2] && outsClear(node, tx, _i2)
 //@   loop 3 invariant tokkindb(lockblob(output), rpos(r) - 1) == 7 && hash == pushhash(tokvalb(lockblob(output), rpos(r) - 1))
 //@   loop 4 invariant 0 <= _i && _i <= len(tx.TxIn) && fbase(node, tx) && outsClear(node, tx, len(tx.TxOut)) && insClear(node, tx, _i)
-//@   loop 1 invariant r != nil && 0 <= rpos(r) && rpos(r) <= ntok(r) && mirrors(r, unlockblob(input)) && noHit(node, unlockblob(input), rpos(r)) && fbase(node, tx)
+//@   loop 1 invariant r != nil && intact(r) && 0 <= rpos(r) && rpos(r) <= ntok(r) && mirrors(r, unlockblob(input)) && noHit(node, unlockblob(input), rpos(r)) && fbase(node, tx)
 //@   loop 1 invariant 0 <= _i4 && _i4 < len(tx.TxIn) && input == tx.TxIn[_i4] && insClear(node, tx, _i4) && outsClear(node, tx, len(tx.TxOut))
 //@   loop 5 invariant 0 <= _i && _i <= len(node.pushDataHashes) && forall(k, 0, _i, node.pushDataHashes[k] != hash) && fbase(node, tx)
-//@   loop 5 invariant r != nil && 1 <= rpos(r) && rpos(r) <= ntok(r) && mirrors(r, unlockblob(input)) && sinceloop(rpos(r) == old(rpos(r))) && noHit(node, unlockblob(input), rpos(r) - 1)
+//@   loop 5 invariant r != nil && intact(r) && 1 <= rpos(r) && rpos(r) <= ntok(r) && mirrors(r, unlockblob(input)) && sinceloop(rpos(r) == old(rpos(r))) && noHit(node, unlockblob(input), rpos(r) - 1)
 //@   loop 5 invariant 0 <= _i4 && _i4 < len(tx.TxIn) && input == tx.TxIn[_i4] && insClear(node, tx, _i4) && outsClear(node, tx, len(tx.TxOut))
 //@   loop 5 invariant tokkindb(unlockblob(input), rpos(r) - 1) == 7 && hash == pushhash(tokvalb(unlockblob(input), rpos(r) - 1))
 //@   ensures no_false: [C08] result ==> (node.sendContracts && ContractAction(tx)) || exists(o, 0, len(tx.TxOut), hitIn(node, lockblob(tx.TxOut[o]))) || exists(o, 0, len(tx.TxIn), hitIn(node, unlockblob(tx.TxIn[o])))
@@ -168,7 +168,8 @@ package spynode
 //@   opt partial = 1
 //@   opt abstract = AddTransaction TxTracker.Remove FetchTxState SaveTxState fetchSpentOutputs
 //@   requires pbase(node) && tx.Msg != nil
-//@   opt track = MarkUnsafe SaveTxState
+//@   opt track = MarkUnsafe SaveTxState RemoveTransaction
+//@   ensures keeps_conflict_evidence: [C05 C07] ncalls(RemoveTransaction) == 0
 //@   assert stored_before_notification at call HandleTx : [C11 C03] lastarg(SaveTxState, 2) == arg2
 //@   assert stored_before_conflict_update at call HandleTxUpdate : [C11 C05] lastarg(SaveTxState, 2) == txState && arg2.State == txState.State
 //@   loop * invariant pbase(node)
